@@ -16,6 +16,9 @@ Where a message can be (each produced message is in exactly one of these — the
   pending    the send failed (ProtocolNetworkException), the handler in `_post_async` has not buffered it yet
   waiting    … and that handler sits in `_set_state("Failed")` at `await self._state_task`
   stuck      … and the state task it waits for swallowed its own cancellation and never ends
+  (`orphans` counts buffer_messages tasks that are alive but no longer referenced by `_state_task`: nothing
+   cancels them, their loop condition looks at whatever `_state_task` refers to now, so they go on buffering
+   every 5 s — also while the runner is Connected / Reconnected)
   batch      copied out of the buffer by `_send_buffered_batch`, `gather` has not started the posts yet
   buffer     `_message_buffer`
   delivered  answered ok (order of answers = order of sends: ordered channel)
@@ -91,6 +94,7 @@ structure State where
   connRes   : Option Bool := none         -- outcome of the last connect attempt
   disc      : Bool := false               -- `disconnect_async` ran, `Disconnected` not yet set
   stask     : Option TaskKind := none
+  orphans   : Nat := 0                    -- buffer tasks whose reference was overwritten while they were alive
   deriving Repr
 
 def init : State := {}
@@ -162,7 +166,7 @@ def next (s : State) : Ev → Option State
                     ctr := ctrAfter s id, seqs := seqsAfter s id }
     else none
   | .bufTask id q =>
-    if id ∈ s.fresh ∧ (mustBuffer s.st = true ∨ s.st = .catchingUp) ∧ q = seqFor s id then
+    if id ∈ s.fresh ∧ (mustBuffer s.st = true ∨ s.st = .catchingUp ∨ 0 < s.orphans) ∧ q = seqFor s id then
       some { s with fresh := s.fresh.erase id, buffer := s.buffer ++ [id], everBuf := s.everBuf ++ [id],
                     owed := s.owed ++ owedFor s id, ctr := ctrAfter s id, seqs := seqsAfter s id }
     else none
@@ -229,7 +233,12 @@ def next (s : State) : Ev → Option State
   | .taskClear true =>
     if s.stask = some .steady then some { s with stask := none, stuck := s.stuck ++ s.waiting, waiting := [] }
     else none
-  | .taskClear false => some { s with stask := none }
+  | .taskClear false =>
+    -- a second failure handler wakes up and executes `self._state_task = None` although `_on_failed` of the
+    -- first one has already stored the new buffer task there: that task is never cancelled any more
+    if s.stask = some .buffering ∧ s.st ≠ .reconnected ∧ s.st ≠ .connected then
+      some { s with stask := none, orphans := s.orphans + 1 }
+    else some { s with stask := none }
 
 /-- The same transition system as a relation. -/
 inductive Step : State → Ev → State → Prop where
